@@ -221,4 +221,247 @@ theorem weight_eq_of_pairAll (H : Ham) (fr : SkOp → Bool) :
     · -- edge op: constant matrix
       exact hc ob (by simp [opsOf]) he _ _ _ _ (by rw [hop.insA, hop.insB]) (by rw [hop.outsA, hop.outsB])
 
+/-! ### symmetry (reversibility) -/
+
+theorem xorB_comm : ∀ (x y : List Bool), xorB x y = xorB y x
+  | [], [] => rfl
+  | [], _ :: _ => rfl
+  | _ :: _, [] => rfl
+  | a :: x, b :: y => by
+    simp only [xorB, List.zipWith_cons_cons, List.cons.injEq]
+    exact ⟨by cases a <;> cases b <;> rfl, xorB_comm x y⟩
+
+theorem flipBits_flipBits (l : List Bool) : flipBits (flipBits l) = l := by
+  induction l with
+  | nil => rfl
+  | cons a t ih => simp only [flipBits, List.map_cons, Bool.not_not, List.cons.injEq, true_and] at ih ⊢; exact ih
+
+theorem flipBits_length (l : List Bool) : (flipBits l).length = l.length := by simp [flipBits]
+
+theorem OpOk.isEdge_eq {fr : SkOp → Bool} {ob oa : Op} (h : OpOk fr ob oa) : oa.isEdge = ob.isEdge := by
+  simp [Op.isEdge, h.sk_eq]
+
+theorem OpOk.symm {fr : SkOp → Bool} {ob oa : Op} (h : OpOk fr ob oa) : OpOk fr oa ob := by
+  have hv := h.vars
+  refine ⟨hv.symm, h.bond.symm, h.const.symm, by rw [hv]; exact h.insA, by rw [hv]; exact h.outsA,
+    by rw [hv]; exact h.insB, by rw [hv]; exact h.outsB, ?_, ?_⟩
+  · intro he
+    rw [h.isEdge_eq] at he
+    rcases h.closed he with hu | hf
+    · exact Or.inl ⟨hu.1.symm, hu.2.symm⟩
+    · exact Or.inr ⟨by rw [hf.1, flipBits_flipBits], by rw [hf.2, flipBits_flipBits]⟩
+  · intro he hf
+    rw [h.isEdge_eq] at he
+    rw [h.sk_eq] at hf
+    have hu := h.frozen he hf
+    exact ⟨hu.1.symm, hu.2.symm⟩
+
+theorem PairAll.symm {P : Op → Op → Prop} (hP : ∀ x y, P x y → P y x) :
+    ∀ {sb sa : Slots}, PairAll P sb sa → PairAll P sa sb
+  | [], [], _ => trivial
+  | [], _ :: _, h' => by simp [PairAll] at h'
+  | none :: _, [], h' => by simp [PairAll] at h'
+  | some _ :: _, [], h' => by simp [PairAll] at h'
+  | none :: tb, none :: ta, h' => by
+    simp only [PairAll] at h' ⊢; exact PairAll.symm hP h'
+  | none :: tb, some _ :: ta, h' => by simp [PairAll] at h'
+  | some _ :: tb, none :: ta, h' => by simp [PairAll] at h'
+  | some ob :: tb, some oa :: ta, h' => by
+    simp only [PairAll] at h' ⊢; exact ⟨hP _ _ h'.1, PairAll.symm hP h'.2⟩
+
+theorem maskSlots_comm {fr : SkOp → Bool} :
+    ∀ {sb sa : Slots}, PairAll (OpOk fr) sb sa → maskSlots sa sb = maskSlots sb sa
+  | [], [], _ => rfl
+  | [], _ :: _, h' => by simp [PairAll] at h'
+  | none :: _, [], h' => by simp [PairAll] at h'
+  | some _ :: _, [], h' => by simp [PairAll] at h'
+  | none :: tb, none :: ta, h' => by
+    simp only [PairAll] at h'; simp only [maskSlots, maskSlots_comm h']
+  | none :: tb, some _ :: ta, h' => by simp [PairAll] at h'
+  | some _ :: tb, none :: ta, h' => by simp [PairAll] at h'
+  | some ob :: tb, some oa :: ta, h' => by
+    simp only [PairAll] at h'
+    simp only [maskSlots, maskSlots_comm h'.2, maskOp, h'.1.vars, h'.1.bond, h'.1.const,
+      xorB_comm oa.ins, xorB_comm oa.outs]
+
+theorem mask_comm {fr : SkOp → Bool} {b a : Config} (h : ClusterMove fr b a) : mask a b = mask b a := by
+  simp only [mask, maskSlots_comm h.ops, xorB_comm a.state]
+
+theorem ClusterMove.symm {fr : SkOp → Bool} {b a : Config} (h : ClusterMove fr b a) :
+    ClusterMove fr a b := by
+  refine ⟨PairAll.symm (fun _ _ h => h.symm) h.ops, h.stateLen.symm, ?_, ?_⟩
+  · rw [mask_comm h]; exact h.linkClosed
+  · intro v hv
+    rw [h.skeleton_eq] at hv
+    exact (h.idle v hv).symm
+
+/-! ### consistency is preserved (propagation commutes with xor) -/
+
+theorem xorB_length (x y : List Bool) : (xorB x y).length = min x.length y.length := by
+  simp [xorB]
+
+theorem xorB_set : ∀ (x y : List Bool) (v : Nat) (p q : Bool),
+    xorB (x.set v p) (y.set v q) = (xorB x y).set v (p != q)
+  | [], _, _, _, _ => by simp [xorB]
+  | _ :: _, [], _, _, _ => by simp [xorB]
+  | a :: x, b :: y, 0, p, q => by simp [xorB]
+  | a :: x, b :: y, v + 1, p, q => by
+    have := xorB_set x y v p q
+    simp only [xorB] at this
+    simp [xorB, this]
+
+theorem getElem?_xorB (x y : List Bool) (i : Nat) :
+    (xorB x y)[i]? = match x[i]?, y[i]? with
+      | some p, some q => some (p != q)
+      | _, _ => none := by
+  simp only [xorB, List.getElem?_zipWith]
+  cases x[i]? <;> cases y[i]? <;> rfl
+
+theorem xorB_cancel : ∀ (x y z : List Bool), y.length = x.length → z.length = x.length →
+    xorB x y = xorB x z → y = z
+  | [], [], [], _, _, _ => rfl
+  | [], _ :: _, _, h, _, _ => by simp at h
+  | [], [], _ :: _, _, h, _ => by simp at h
+  | _ :: _, [], _, h, _, _ => by simp at h
+  | _ :: _, _ :: _, [], _, h, _ => by simp at h
+  | a :: x, b :: y, c :: z, h1, h2, h => by
+    simp only [xorB, List.zipWith_cons_cons, List.cons.injEq] at h
+    have ht := xorB_cancel x y z (by simpa using h1) (by simpa using h2) h.2
+    have hh : b = c := by
+      have := h.1; revert this; cases a <;> cases b <;> cases c <;> simp
+    rw [hh, ht]
+
+theorem writeVars_length (vars : List Nat) : ∀ (vals : List Bool) (st : List Bool),
+    (writeVars st vars vals).length = st.length := by
+  induction vars with
+  | nil => intro vals st; simp [writeVars]
+  | cons v vs ih =>
+    intro vals st
+    cases vals with
+    | nil => simp [writeVars]
+    | cons x xs =>
+      have := ih xs (st.set v x)
+      simp only [writeVars, List.zip_cons_cons, List.foldl_cons] at this ⊢
+      rw [this]; simp
+
+theorem writeVars_xor (vars : List Nat) : ∀ (bo ao sB sA : List Bool), bo.length = ao.length →
+    xorB (writeVars sB vars bo) (writeVars sA vars ao) = writeVars (xorB sB sA) vars (xorB bo ao) := by
+  induction vars with
+  | nil => intro bo ao sB sA _; simp [writeVars]
+  | cons v vs ih =>
+    intro bo ao sB sA hl
+    cases bo with
+    | nil =>
+      cases ao with
+      | nil => simp [writeVars, xorB]
+      | cons y ys => simp at hl
+    | cons x xs =>
+      cases ao with
+      | nil => simp at hl
+      | cons y ys =>
+        have := ih xs ys (sB.set v x) (sA.set v y) (by simpa using hl)
+        simp only [writeVars, xorB, List.zipWith_cons_cons, List.zip_cons_cons, List.foldl_cons] at this ⊢
+        rw [this]
+        have h2 := xorB_set sB sA v x y
+        simp only [xorB] at h2
+        rw [h2]
+
+theorem inputs_xor (sB sA : List Bool) (vars : List Nat) : ∀ (bi ai : List Bool),
+    bi.length = vars.length → ai.length = vars.length →
+    (vars.zip bi).all (fun vb => sB[vb.1]? == some vb.2) = true →
+    (vars.zip (xorB bi ai)).all (fun vb => (xorB sB sA)[vb.1]? == some vb.2) = true →
+    (vars.zip ai).all (fun vb => sA[vb.1]? == some vb.2) = true := by
+  induction vars with
+  | nil => intro bi ai _ _ _ _; simp
+  | cons v vs ih =>
+    intro bi ai h1 h2 hb hm
+    cases bi with
+    | nil => simp at h1
+    | cons x xs =>
+      cases ai with
+      | nil => simp at h2
+      | cons y ys =>
+        simp only [xorB, List.zipWith_cons_cons, List.zip_cons_cons, List.all_cons, Bool.and_eq_true,
+          beq_iff_eq] at hb hm ⊢
+        refine ⟨?_, ih xs ys (by simpa using h1) (by simpa using h2) hb.2 (by simpa [xorB] using hm.2)⟩
+        have hx := getElem?_xorB sB sA v
+        simp only [xorB] at hx
+        rw [hx, hb.1] at hm
+        cases hA : sA[v]? with
+        | none => rw [hA] at hm; simp at hm
+        | some q =>
+          rw [hA] at hm
+          have := hm.1
+          simp only [Option.some.injEq] at this
+          revert this; cases x <;> cases y <;> cases q <;> simp
+
+/-- one op: if the op before meets its inputs and the mask op meets its inputs (on the xor of the
+rolling states), the op after meets its inputs, and the rolling states stay related by xor -/
+theorem applyOp_xor {fr : SkOp → Bool} {ob oa : Op} (h : OpOk fr ob oa) {sB sA sB' M' : List Bool}
+    (hl : sA.length = sB.length)
+    (hb : applyOp sB ob = some sB') (hm : applyOp (xorB sB sA) (maskOp ob oa) = some M') :
+    ∃ sA', applyOp sA oa = some sA' ∧ sA'.length = sB'.length ∧ xorB sB' sA' = M' := by
+  simp only [applyOp] at hb hm ⊢
+  split at hb
+  · rename_i hbi
+    split at hm
+    · rename_i hmi
+      have hai : inputsMatch sA oa = true := by
+        simp only [inputsMatch, maskOp] at hbi hmi ⊢
+        rw [h.vars]
+        exact inputs_xor sB sA ob.vars ob.ins oa.ins h.insB h.insA hbi hmi
+      rw [if_pos hai]
+      simp only [Option.some.injEq] at hb hm
+      refine ⟨_, rfl, ?_, ?_⟩
+      · rw [← hb, writeVars_length, writeVars_length, hl]
+      · rw [← hb, ← hm, h.vars]
+        simp only [maskOp]
+        exact writeVars_xor ob.vars ob.outs oa.outs sB sA (by rw [h.outsB, h.outsA])
+    · cases hm
+  · cases hb
+
+theorem propagate_xor {fr : SkOp → Bool} :
+    ∀ {sb sa : Slots}, PairAll (OpOk fr) sb sa → ∀ {sB sA sB' M' : List Bool},
+      sA.length = sB.length → propagate sB sb = some sB' →
+      propagate (xorB sB sA) (maskSlots sb sa) = some M' →
+      ∃ sA', propagate sA sa = some sA' ∧ sA'.length = sB'.length ∧ xorB sB' sA' = M'
+  | [], [], _, sB, sA, sB', M', hl, hb, hm => by
+    simp only [propagate, maskSlots, Option.some.injEq] at hb hm ⊢
+    exact ⟨sA, rfl, by rw [← hb, hl], by rw [← hb, hm]⟩
+  | [], _ :: _, h', _, _, _, _, _, _, _ => by simp [PairAll] at h'
+  | none :: _, [], h', _, _, _, _, _, _, _ => by simp [PairAll] at h'
+  | some _ :: _, [], h', _, _, _, _, _, _, _ => by simp [PairAll] at h'
+  | none :: tb, none :: ta, h', sB, sA, sB', M', hl, hb, hm => by
+    simp only [PairAll] at h'
+    simp only [propagate, maskSlots] at hb hm ⊢
+    exact propagate_xor h' hl hb hm
+  | none :: tb, some _ :: ta, h', _, _, _, _, _, _, _ => by simp [PairAll] at h'
+  | some _ :: tb, none :: ta, h', _, _, _, _, _, _, _ => by simp [PairAll] at h'
+  | some ob :: tb, some oa :: ta, h', sB, sA, sB', M', hl, hb, hm => by
+    simp only [PairAll] at h'
+    simp only [propagate, maskSlots] at hb hm ⊢
+    cases hb1 : applyOp sB ob with
+    | none => rw [hb1] at hb; cases hb
+    | some sB1 =>
+      rw [hb1] at hb
+      cases hm1 : applyOp (xorB sB sA) (maskOp ob oa) with
+      | none => rw [hm1] at hm; cases hm
+      | some M1 =>
+        rw [hm1] at hm
+        obtain ⟨sA1, ha1, hl1, hx1⟩ := applyOp_xor h'.1 hl hb1 hm1
+        rw [ha1]
+        simp only
+        subst hx1
+        exact propagate_xor h'.2 hl1 hb hm
+
+theorem ClusterMove.consistent {fr : SkOp → Bool} {b a : Config} (h : ClusterMove fr b a)
+    (hb : Consistent b) : Consistent a := by
+  unfold Consistent at hb ⊢
+  have hm := h.linkClosed
+  unfold Consistent at hm
+  simp only [mask] at hm
+  obtain ⟨sA', ha, hl, hx⟩ := propagate_xor h.ops h.stateLen hb hm
+  have : sA' = a.state := xorB_cancel b.state sA' a.state hl h.stateLen hx
+  rw [ha, this]
+
 end Qmc
